@@ -66,6 +66,9 @@ def run(ctx):
     for m in fvops.float_meshes(ctx):
         jobs.append(("call", dict(module="harness.fvops", func="float_trace", args=m)))
     traces = rf.replay_all(ctx, jobs)
+    refused = [t for t in traces if t["kind"] == "refused"]
+    traces = [t for t in traces if t["kind"] != "refused"]
+    ctx.cov["float_meshes_refused_by_mesh_smooth"] = [t["label"] for t in refused]
     # 3. code -> spec
     for t in traces:
         if t["kind"] == "exact":
@@ -78,6 +81,7 @@ def run(ctx):
     for lo in range(0, nexact, step):
         acc = fvops.validate(ctx, traces[lo:lo + step], "C03", INV)
         accepted |= {lo + n for n in acc}
+    fvops.check_float_coverage(traces[nexact:])
     accf = fvops.validate(ctx, traces[nexact:], "C03/float", INV)
     accepted |= {nexact + n for n in accf}
     for n in sorted(accepted)[:2] + sorted(nexact + k for k in accf)[:2]:
